@@ -45,6 +45,9 @@ var specPreludes = map[string]string{
 
 var specPreludeOrder = []string{"unwrap", "strlen", "crcU"}
 
+// specPreludeAlias: additional symbols that pull in a prelude.
+var specPreludeAlias = map[string]string{}
+
 // BuildQuery renders an obligation as a self-contained SMT-LIB script.
 func (o *Obl) BuildQuery() string { return o.buildQuery(false) }
 
@@ -154,6 +157,11 @@ func (o *Obl) buildQuery(slice bool) string {
 	}
 	body.WriteString("; expect: " + o.Expect + " (unsat = obligation holds; sat = counterexample)\n")
 	body.WriteString("(set-option :produce-models true)\n(set-logic ALL)\n")
+	for s2, k := range specPreludeAlias {
+		if used[s2] {
+			used[k] = true
+		}
+	}
 	for _, k := range specPreludeOrder {
 		if used[k] {
 			if o.Expect == "sat" {
